@@ -79,6 +79,8 @@ class VSoftFileLock:
         self._locked = True
         self._count = 1
         vp.holding.append(path)
+        if rel is not None:
+            vp.data["acq:" + rel] = vp.data.get("acq:" + rel, 0) + 1
         w.emit("acquired", vp=vp, rel=rel)
         return self
 
